@@ -94,7 +94,7 @@ TRANSLATED = {
  'C08': 'KillerTable::get/put, the MvvLva sort key, Heuristic::is_checkmate and the terminal branches of evaluate (rs_killer_get_eq, rs_killer_put_eq, rs_sort_key_eq, rs_is_checkmate_eq, rs_evaluate_eq)',
  'C10': 'ZobristHistory::count_repetitions and Bitboard::ply_clock (rs_count_repetitions_eq, rs_ply_clock_eq)',
  'C11': 'Heuristic::score_from_value, is_checkmate, evaluate, and SimpleHeuristic::game_stage / piece_value / piece_square_value / evaluate_ongoing over the regenerated tables (rs_score_from_value_eq, rs_is_checkmate_eq, rs_evaluate_eq, rs_evaluate_ongoing_eq, rs_evaluate_full_eq: the static evaluation the flip theorems are about IS the translated source)',
- 'C13': 'Move::to_uci_string, Bitboard::find_uci and make_uci (rs_find_uci_eq, rs_make_uci_eq; rs_find_uci_vis / rs_make_uci_vis: a rejected string leaves the visible position as it was)',
+ 'C13': 'Move::to_uci_string, Bitboard::find_uci, make_uci and make_all_uci (rs_find_uci_eq, rs_make_uci_eq, rs_make_all_uci_eq: after an error the board is the original position; rs_find_uci_vis / rs_make_uci_vis: a rejected string leaves the visible position as it was)',
  'C12': 'Fen::from_str (everything but the regex match, which is an opaque oracle assumed to behave like the hand-translated FenSyntax.regexGroups: hypothesis RegexModel), validate_ranks/validate_rank, the clock checks, the whole reader FenParseExt / Bitboard::from(&Fen) with square_shift_from_fen_unchecked (rs_fen_from_str_eq, rs_fen_decode_eq, rs_fen_read_eq, rs_fen_roundtrip_read: the text printFen writes is read back by the TRANSLATED reader to the same position); the whole writer From<&Bitboard> for Fen (rs_fen_write_eq: its text is the text of the model printer and it never panics; rs_fen_roundtrip: translated writer then translated reader give back the position)',
  'C17': 'the whole PGN reader pgn/src/reader.rs (ensure_buffer, peek/pop/skip_byte, read_until, read_token, tag pairs, moves, comments, Iterator::next) in a monadic translation over the reader state, Read::read as an opaque parameter under the mapping assumption ReadModel: rs_ensure_buffer_eq, rs_read_token_sim, rs_pgn_next_eq, rs_pgn_chunk_independent, rs_pgn_reader_correct (for every input, chunk size and read schedule the translated reader never panics and yields item by item what the plain byte list yields)',
  'C15': 'Square::from_chars / from_indices (rs_from_chars_eq)',
